@@ -332,6 +332,9 @@ def big_universe(rnd, quick):
         cand += [util.rand_perm(rnd, n) for _ in range(1 if quick else 4)]
         for p in cand[: (4 if quick and n > 5 else len(cand))]:
             vals.append(V("Perm", p, variant=rnd.randrange(8)))
+    for n in (11, 12):                                # differ, although their entries written one after the other read the same
+        for t in util.digit_twins(rnd, n, structured=n == 11):
+            vals.append(V("Perm", t, variant=rnd.randrange(8)))
     vals.append(V("Perm", (0, 1, 2, 3), variant=2))
     vals.append(V("Perm", (0, 1, 2, 3), variant=5))
     for _ in range(4 if quick else 11):
